@@ -39,7 +39,7 @@ def make_case(tier, seed, index):
 
         for _ in range(50):
             case = corpus.make_case(rng, max_steps=30 if tier == "quick" else 60)
-            fw_, db_, pbs_ = [x for x in corpus.PAIRS if x[0] == case["framework"] and x[1] == case["databook"]][0]
+            pbs_ = ([x for x in corpus.PAIRS if x[0] == case["framework"] and x[1] == case["databook"]] or [(None, None, [])])[0][2]
             if pbs_:
                 case["progbook"] = pbs_[int(rng.integers(0, len(pbs_)))]
                 return case
